@@ -1143,11 +1143,11 @@ Proof.
 Qed.
 
 (** the LOCAL class in which no [arg_conflicts] call panics: every blacklist entry of a non-positional argument names
-    an argument of its command, or -- for an argument that is not global -- a group of its command.  (clap's
-    configuration check, [id_exists], accepts a group for a global argument too: that is the boundary, see
-    [zsh_global_conflicts_group_refuted].) *)
+    an argument or a group of its command -- clap's configuration check ([id_exists]), nothing more.  (Round 4 had to ask
+    the entries of a GLOBAL argument to name arguments: [get_global_arg_conflicts_with] did not consult groups -- finding
+    zsh-global-conflicts-group, repaired; see [zsh_global_conflicts_group_fixed].) *)
 Definition entry_ok (m : cmd) (a : arg) (id : bytes) : bool :=
-  is_some (find_arg m id) || (negb (a_global a) && find_group m id).
+  is_some (find_arg m id) || find_group m id.
 Definition conflicts_local (m : cmd) : bool :=
   forallb (fun a => forallb (entry_ok m a) (a_blacklist a)) (filter (fun a => negb (a_is_positional a)) (c_args m)).
 
@@ -1165,36 +1165,107 @@ Proof.
   apply in_flat_map. exists m. split; [exact Hin|]. rewrite Hex. left. reflexivity.
 Qed.
 
+(** one entry of a GLOBAL argument (after the repair of finding zsh-global-conflicts-group): it resolves iff it names an
+    argument of the pool -- the command the lookup runs on and its subcommands that contain the argument -- or a group of
+    that command *)
+Definition global_pool (x : cmd) (a : arg) : list arg := c_args x ++ flat_map c_args (subcommands_containing x (a_id a)).
+Lemma existsb_find {A} (f : A -> bool) l : existsb f l = is_some (find f l).
+Proof. induction l as [|x t IH]; [reflexivity|]. cbn [existsb find]. destruct (f x); [reflexivity|exact IH]. Qed.
+Lemma group_targets_total c id : group_targets c id <> None.
+Proof. unfold group_targets. destruct (unroll_total c id) as (ids & -> & l & ->). discriminate. Qed.
+Theorem global_conflict_targets_resolves x a id :
+  global_conflict_targets x a id <> None <->
+  (is_some (find (fun y => beq (a_id y) id) (global_pool x a))
+   || existsb (fun c => find_group c id) (x :: subcommands_containing x (a_id a))) = true.
+Proof.
+  unfold global_conflict_targets, global_pool.
+  destruct (find (fun y => beq (a_id y) id) (c_args x ++ flat_map c_args (subcommands_containing x (a_id a)))) as [y|];
+    cbn [is_some orb]; [split; [reflexivity|discriminate]|].
+  rewrite existsb_find.
+  destruct (find (fun c => find_group c id) (x :: subcommands_containing x (a_id a))) as [c|]; cbn [is_some].
+  - split; [reflexivity|]. intros _. apply group_targets_total.
+  - split; [intros H; contradiction|discriminate].
+Qed.
+Lemma find_in_some (l : list arg) id y :
+  In y l -> beq (a_id y) id = true -> is_some (find (fun z => beq (a_id z) id) l) = true.
+Proof.
+  intros Hin Hb. destruct (find (fun z => beq (a_id z) id) l) eqn:E; [reflexivity|].
+  pose proof (find_none _ _ E y Hin) as H. cbn beta in H. congruence.
+Qed.
+Lemma find_arg_in m id : is_some (find_arg m id) = true -> exists y, In y (c_args m) /\ beq (a_id y) id = true.
+Proof.
+  unfold find_arg. destruct (find (fun y => beq (a_id y) id) (c_args m)) as [y|] eqn:E; [|discriminate].
+  intros _. apply find_some in E. exists y. exact E.
+Qed.
+
+(** the PARENT-AWARE boolean class: [x] is the command the lookup of a global argument runs on (the parent of [m]; [m]
+    itself at the root).  An entry of a non-global option / flag names an argument or a group of [m]; an entry of a global
+    one names an argument or a group of [m] or of [x].  Wider than the local class: a global argument copied into [m] may
+    keep naming things of the command it came from. *)
+Definition entry_ok_at (x m : cmd) (a : arg) (id : bytes) : bool :=
+  if a_global a then is_some (find_arg m id) || find_group m id || is_some (find_arg x id) || find_group x id
+  else is_some (find_arg m id) || find_group m id.
+Definition conflicts_ok_at (x m : cmd) : bool :=
+  forallb (fun a => forallb (entry_ok_at x m a) (a_blacklist a)) (filter (fun a => negb (a_is_positional a)) (c_args m)).
+Definition lookup_cmd (g : option cmd) (m : cmd) : cmd := match g with Some p => p | None => m end.
+
+Theorem conflicts_ok_at_resolve m g :
+  conflicts_ok_at (lookup_cmd g m) m = true -> (forall p, g = Some p -> In m (c_subs p)) -> conflicts_resolve m g = true.
+Proof.
+  intros Hloc Hg. unfold conflicts_resolve. apply forallb_forall. intros a Ha.
+  unfold conflicts_ok_at in Hloc. rewrite forallb_forall in Hloc. specialize (Hloc a Ha). rewrite forallb_forall in Hloc.
+  apply filter_In in Ha. destruct Ha as [Ha _].
+  assert (Hx : lookup_cmd g m = m \/ In m (c_subs (lookup_cmd g m))).
+  { destruct g as [p|]; [right; exact (Hg p eq_refl)|left; reflexivity]. }
+  assert (Hres : get_arg_conflicts_with (if a_global a then lookup_cmd g m else m) a <> None).
+  { unfold get_arg_conflicts_with. destruct (a_global a) eqn:Hgl.
+    - unfold get_global_arg_conflicts_with.
+      match goal with |- match map_opt ?F ?L with _ => _ end <> None => destruct (map_opt_total_in F L) as (r & ->); [|discriminate] end.
+      intros id Hid. apply global_conflict_targets_resolves. specialize (Hloc id Hid). unfold entry_ok_at in Hloc.
+      rewrite Hgl in Hloc.
+      assert (Hmin : In m (lookup_cmd g m :: subcommands_containing (lookup_cmd g m) (a_id a))).
+      { destruct Hx as [->|Hx]; [left; reflexivity|right].
+        apply subcommands_containing_child; [exact Hx|]. apply existsb_exists. exists a. split; [exact Ha|apply beq_refl]. }
+      assert (Hpool_m : forall y, In y (c_args m) -> In y (global_pool (lookup_cmd g m) a)).
+      { intros y Hy. unfold global_pool. destruct Hmin as [E|Hmin]; [rewrite E; apply in_or_app; left; exact Hy|].
+        apply in_or_app. right. apply in_flat_map. exists m. split; [exact Hmin|exact Hy]. }
+      apply orb_true_iff in Hloc. destruct Hloc as [Hloc|Hgx].
+      2:{ apply orb_true_iff. right. cbn [existsb]. rewrite Hgx. reflexivity. }
+      apply orb_true_iff in Hloc. destruct Hloc as [Hloc|Hxa].
+      2:{ apply orb_true_iff. left. destruct (find_arg_in _ id Hxa) as (y & Hy & Eb). apply (find_in_some _ id y); [|exact Eb].
+          unfold global_pool. apply in_or_app. left. exact Hy. }
+      apply orb_true_iff in Hloc. destruct Hloc as [Hm|Hgm].
+      + apply orb_true_iff. left. destruct (find_arg_in m id Hm) as (y & Hy & Eb).
+        apply (find_in_some _ id y); [apply Hpool_m; exact Hy|exact Eb].
+      + apply orb_true_iff. right. apply existsb_exists. exists m. split; [exact Hmin|exact Hgm].
+    - match goal with |- match map_opt ?F ?L with _ => _ end <> None => destruct (map_opt_total_in F L) as (r & ->); [|discriminate] end.
+      intros id Hid. apply conflict_targets_resolves. specialize (Hloc id Hid). unfold entry_ok_at in Hloc. rewrite Hgl in Hloc.
+      exact Hloc. }
+  unfold arg_conflicts_opt. destruct (a_global a); destruct g as [p|]; cbn [lookup_cmd] in Hres;
+    (match goal with |- is_some (match ?X with _ => _ end) = true => destruct X; [reflexivity|contradiction] end).
+Qed.
+
+(** the local class of round 4 (entries of a global option / flag name arguments of its own command) is inside it *)
+Lemma conflicts_local_ok_at x m : conflicts_local m = true -> conflicts_ok_at x m = true.
+Proof.
+  unfold conflicts_local, conflicts_ok_at. intros H. rewrite forallb_forall in H. apply forallb_forall. intros a Ha.
+  specialize (H a Ha). rewrite forallb_forall in H. apply forallb_forall. intros id Hid. specialize (H id Hid).
+  unfold entry_ok in H. unfold entry_ok_at. destruct (a_global a); [|exact H]. rewrite H. reflexivity.
+Qed.
 (** resolution for the command [m] written below its parent [p] (or the root: no parent) *)
 Theorem conflicts_local_resolve m g :
   conflicts_local m = true -> (forall p, g = Some p -> In m (c_subs p)) -> conflicts_resolve m g = true.
+Proof. intros Hloc Hg. apply conflicts_ok_at_resolve; [apply conflicts_local_ok_at; exact Hloc|exact Hg]. Qed.
+(** at the root clap's configuration check is all it takes *)
+Theorem conflicts_root_id_exists m :
+  (forall a, In a (c_args m) -> a_is_positional a = false -> forall id, In id (a_blacklist a) ->
+     (is_some (find_arg m id) || find_group m id) = true) ->
+  conflicts_resolve m None = true.
 Proof.
-  intros Hloc Hg. unfold conflicts_resolve. apply forallb_forall. intros a Ha.
-  unfold conflicts_local in Hloc. rewrite forallb_forall in Hloc. specialize (Hloc a Ha). rewrite forallb_forall in Hloc.
-  apply filter_In in Ha. destruct Ha as [Ha _].
-  assert (Hglob : forall x, (x = m \/ In m (c_subs x)) -> a_global a = true -> get_arg_conflicts_with x a <> None).
-  { intros x Hx Hgl. unfold get_arg_conflicts_with. rewrite Hgl. unfold get_global_arg_conflicts_with.
-    match goal with |- map_opt ?F ?L <> None => destruct (map_opt_total_in F L) as (r & ->); [|discriminate] end.
-    intros id Hid. specialize (Hloc id Hid). unfold entry_ok in Hloc. rewrite Hgl in Hloc. cbn [negb andb] in Hloc.
-    rewrite Bool.orb_false_r in Hloc. unfold find_arg in Hloc.
-    destruct (find (fun y => beq (a_id y) id) (c_args m)) as [y|] eqn:Ey; [|discriminate].
-    apply find_some in Ey. destruct Ey as [Hy Eyid].
-    intros Hnone. pose proof (find_none _ _ Hnone y) as Hn. cbn beta in Hn. rewrite Eyid in Hn.
-    assert (Hin : In y (c_args x ++ flat_map c_args (subcommands_containing x (a_id a)))); [|specialize (Hn Hin); discriminate].
-    destruct Hx as [->|Hx]; [apply in_or_app; left; exact Hy|].
-    apply in_or_app. right. apply in_flat_map. exists m. split; [|exact Hy].
-    apply subcommands_containing_child; [exact Hx|]. apply existsb_exists. exists a. split; [exact Ha|apply beq_refl]. }
-  assert (Hlocal : a_global a = false -> get_arg_conflicts_with m a <> None).
-  { intros Hgl. unfold get_arg_conflicts_with. rewrite Hgl.
-    match goal with |- match map_opt ?F ?L with _ => _ end <> None => destruct (map_opt_total_in F L) as (r & ->); [|discriminate] end.
-    intros id Hid. apply conflict_targets_resolves. specialize (Hloc id Hid). unfold entry_ok in Hloc. rewrite Hgl in Hloc.
-    exact Hloc. }
-  unfold arg_conflicts_opt. destruct (a_global a) eqn:Hgl.
-  - destruct g as [p|].
-    + specialize (Hglob p (or_intror (Hg p eq_refl)) eq_refl). destruct (get_arg_conflicts_with p a); [reflexivity|contradiction].
-    + specialize (Hglob m (or_introl eq_refl) eq_refl). destruct (get_arg_conflicts_with m a); [reflexivity|contradiction].
-  - specialize (Hlocal eq_refl).
-    destruct g as [p|]; (destruct (get_arg_conflicts_with m a); [reflexivity|contradiction]).
+  intros H. apply conflicts_ok_at_resolve; [|intros p Hp; discriminate]. cbn [lookup_cmd]. unfold conflicts_ok_at.
+  apply forallb_forall. intros a Ha. apply filter_In in Ha. destruct Ha as [Ha Hp]. apply negb_true_iff in Hp.
+  apply forallb_forall. intros id Hid. specialize (H a Ha Hp id Hid). unfold entry_ok_at.
+  destruct (a_global a); [|exact H]. rewrite H. reflexivity.
 Qed.
 
 (** trees without any conflict declaration *)
@@ -1242,6 +1313,34 @@ Theorem zsh_total_local c d b :
   (forall n, (n = c \/ desc c n) -> conflicts_local n = true) -> exists s, zsh_script c d = Some s.
 Proof.
   intros Hb Hl Hns Hsn Hloc. destruct (zsh_ok_local c b Hb Hl Hns Hsn Hloc) as [H1 H2 _ _ H5 H6].
+  exact (zsh_total c d b H1 H2 H5 H6).
+Qed.
+
+(** the parent-aware class at every node: the root with itself, every subcommand with its parent *)
+Theorem zsh_ok_at c b :
+  c_bin c = Some b -> linked c -> nospace c -> sibling_names c ->
+  conflicts_ok_at c c = true ->
+  (forall p sc, (p = c \/ desc c p) -> In sc (c_subs p) -> conflicts_ok_at p sc = true) -> zsh_ok c b.
+Proof.
+  intros Hb Hl Hns Hsn Hroot Hloc. constructor; try assumption.
+  - apply (conflicts_ok_at_resolve c None); [exact Hroot|intros p Hp; discriminate].
+  - intros p sc m Hp Hsc Hm.
+    assert (Hpb : exists pb, c_bin p = Some pb /\ linked p /\ nospace p /\ sibling_names p).
+    { destruct Hp as [->|Hd]; [exists b; auto|].
+      destruct (linked_desc_bin _ _ Hl Hd) as [pb Epb]. exists pb. split; [exact Epb|].
+      split; [eapply linked_desc; eassumption|]. split; [eapply nospace_desc; eassumption|eapply sibling_names_desc; eassumption]. }
+    destruct Hpb as (pb & Epb & Hlp & Hnp & Hsp).
+    rewrite (parser_of_exact p pb sc Epb Hlp Hnp Hsp (or_intror (desc_child _ _ Hsc))) in Hm. inversion Hm; subst m.
+    apply (conflicts_ok_at_resolve sc (Some p)); [exact (Hloc p sc Hp Hsc)|].
+    intros p' Hp'. inversion Hp'; subst p'. exact Hsc.
+Qed.
+Theorem zsh_total_at c d b :
+  c_bin c = Some b -> linked c -> nospace c -> sibling_names c ->
+  conflicts_ok_at c c = true ->
+  (forall p sc, (p = c \/ desc c p) -> In sc (c_subs p) -> conflicts_ok_at p sc = true) ->
+  exists s, zsh_script c d = Some s.
+Proof.
+  intros Hb Hl Hns Hsn Hroot Hloc. destruct (zsh_ok_at c b Hb Hl Hns Hsn Hroot Hloc) as [H1 H2 _ _ H5 H6].
   exact (zsh_total c d b H1 H2 H5 H6).
 Qed.
 
@@ -1521,33 +1620,48 @@ Proof.
   exists s. split; [reflexivity|]. apply binfix_sound. vm_compute in E. inversion E; subst s. vm_compute. reflexivity.
 Qed.
 
-(** class boundary of totality = finding [zsh-global-conflicts-group]: a GLOBAL argument that conflicts with a GROUP.
-    clap's configuration check ([id_exists]: every blacklist entry names an argument or a group of the command) accepts the
-    command and the parser handles it; [Command::get_global_arg_conflicts_with] looks the entry up among ARGUMENTS only and
-    [expect]s: the zsh generator panics -- for every assignment of texts, in a one-node tree.  (Replayed on the real
-    generator: "Command::get_arg_conflicts_with: The passed arg conflicts with an arg unknown to the cmd".) *)
+(** the former class boundary of totality = finding [zsh-global-conflicts-group], REPAIRED: a GLOBAL argument that conflicts
+    with a GROUP.  clap's configuration check ([id_exists]: every blacklist entry names an argument or a group of the
+    command) accepts the command; [Command::get_global_arg_conflicts_with] used to look the entry up among ARGUMENTS only and
+    [expect]; it now falls back to the group of that id in the command and in the subcommands that contain the argument.
+    The witness tree of the finding is in the local class (which is clap's check now), in [zsh_ok], and gets a script with
+    the exclusion list of the group's members -- in a root, below a parent that has the group too, and in a subcommand that
+    declares the global argument and the group itself (same files from the repaired generator) *)
 Definition zg_g : arg := zc_flag (lit "g") (lit "g") [] [lit "grp"] true.
 Definition zg_a : arg := zc_flag (lit "a") (lit "a") [lit "grp"] [] false.
 Definition zg_root : cmd := mkCmd (lit "p") [] [zg_g; zg_a] [] (Some (lit "p")) false false sets0 sets0.
-Lemma zsh_global_conflicts_group_refuted :
-  exists c b,
-    c_bin c = Some b /\ linked c /\ nospace c /\ sibling_names c /\
-    (forall n, (n = c \/ desc c n) -> forall a, In a (c_args n) -> forall id, In id (a_blacklist a) ->
-       (is_some (find_arg n id) || find_group n id) = true) /\
-    conflicts_local c = false /\
-    forall d, zsh_script c d = None.
+(** the same with a subcommand that receives both global arguments: below the parent the group of the PARENT is consulted *)
+Definition zg_a_glob : arg := zc_flag (lit "a") (lit "a") [lit "grp"] [] true.
+Definition zg_user : cmd :=
+  mkCmd (lit "p") [] [zg_g; zg_a_glob] [mkCmd (lit "s") [] [] [] None false false sets0 sets0] None false false sets0 sets0.
+Definition zg_sub_user : cmd :=
+  mkCmd (lit "p") [] [] [mkCmd (lit "s") [] [zg_g; zg_a] [] None false false sets0 sets0] None false false sets0 sets0.
+Lemma zsh_global_conflicts_group_fixed :
+  conflicts_local zg_root = true /\ conflicts_ok_at zg_root zg_root = true /\ zsh_ok zg_root (lit "p") /\
+  get_arg_conflicts_with zg_root zg_g = Some [zg_a] /\
+  (forall d, exists s, zsh_script zg_root d = Some s) /\
+  (exists s, zsh_script zg_root cd0 = Some s /\ sublist (lit "'(--a)--g[]' \") s) /\
+  (exists s, generate_zsh zg_user cd0 (lit "p") = Some s /\ sublist (lit "(s)" ++ lf ++ lit "_arguments ""${_arguments_options[@]}"" : \" ++ lf ++ lit "'(--a)--g[]' \") s) /\
+  (exists s, generate_zsh zg_sub_user cd0 (lit "p") = Some s /\ sublist (lit "(s)" ++ lf ++ lit "_arguments ""${_arguments_options[@]}"" : \" ++ lf ++ lit "'(--a)--g[]' \") s).
 Proof.
   assert (Hdesc : forall n, desc zg_root n -> False).
   { intros n H. inversion H as [? ? Hin|? ? ? Hin]; destruct Hin. }
-  exists zg_root, (lit "p"). split; [reflexivity|].
-  split. { intros p sc [->|Hp] Hin; [destruct Hin|destruct (Hdesc _ Hp)]. }
-  split. { intros n Hn. destruct (Hdesc _ Hn). }
-  split. { intros p [->|Hp]; [constructor|destruct (Hdesc _ Hp)]. }
-  split. { intros n [->|Hn]; [|destruct (Hdesc _ Hn)]. intros a Ha id Hid. cbn in Ha.
-           destruct Ha as [<-|[<-|[]]]; cbn in Hid; [destruct Hid as [<-|[]]; reflexivity|destruct Hid]. }
-  split; [reflexivity|].
-  intros d. unfold zsh_script, zsh_pieces. cbn [zg_root c_bin].
-  rewrite (get_args_of_unresolved _ d None) by reflexivity. reflexivity.
+  assert (Hok : zsh_ok zg_root (lit "p")).
+  { apply zsh_ok_at; [reflexivity| | | |reflexivity|].
+    - intros p sc [->|Hp] Hin; [destruct Hin|destruct (Hdesc _ Hp)].
+    - intros n Hn. destruct (Hdesc _ Hn).
+    - intros p [->|Hp]; [constructor|destruct (Hdesc _ Hp)].
+    - intros p sc [->|Hp] Hin; [destruct Hin|destruct (Hdesc _ Hp)]. }
+  split; [reflexivity|]. split; [reflexivity|]. split; [exact Hok|]. split; [reflexivity|].
+  split. { intros d. destruct (zsh_script_root zg_root d (lit "p") Hok) as (s & Es & _). exists s. exact Es. }
+  split.
+  { destruct (zsh_script zg_root cd0) as [s|] eqn:E; [|vm_compute in E; discriminate].
+    exists s. split; [reflexivity|]. apply binfix_sound. vm_compute in E. inversion E; subst s. vm_compute. reflexivity. }
+  split.
+  - destruct (generate_zsh zg_user cd0 (lit "p")) as [s|] eqn:E; [|vm_compute in E; discriminate].
+    exists s. split; [reflexivity|]. apply binfix_sound. vm_compute in E. inversion E; subst s. vm_compute. reflexivity.
+  - destruct (generate_zsh zg_sub_user cd0 (lit "p")) as [s|] eqn:E; [|vm_compute in E; discriminate].
+    exists s. split; [reflexivity|]. apply binfix_sound. vm_compute in E. inversion E; subst s. vm_compute. reflexivity.
 Qed.
 
 (** round 4: the value name of an option spec: every line of an option that requires a value carries [:vn:] followed by the
@@ -1572,22 +1686,17 @@ Proof.
     destruct Hl as (s & <- & _). unfold ZshModel.opt_long_line. apply in_or_app. right. apply in_or_app. left. exact Hx'.
 Qed.
 
-(** the local class, spelled out: clap's configuration check ([id_exists] for every entry) AND, for a global option / flag,
-    every entry names an ARGUMENT -- the second conjunct is what excludes the [expect] *)
+(** the local class, spelled out: it IS clap's configuration check ([id_exists]) on the entries of the options / flags of the
+    command -- since the repair of finding zsh-global-conflicts-group no second condition on global arguments is needed *)
 Theorem conflicts_local_meaning m :
   conflicts_local m = true <->
   forall a, In a (c_args m) -> a_is_positional a = false -> forall id, In id (a_blacklist a) ->
-    (is_some (find_arg m id) || find_group m id) = true /\ (a_global a = true -> is_some (find_arg m id) = true).
+    (is_some (find_arg m id) || find_group m id) = true.
 Proof.
   unfold conflicts_local. rewrite forallb_forall. split.
   - intros H a Ha Hp id Hid.
     assert (Hf : In a (filter (fun a => negb (a_is_positional a)) (c_args m))) by (apply filter_In; rewrite Hp; auto).
-    specialize (H a Hf). rewrite forallb_forall in H. specialize (H id Hid). unfold entry_ok in H.
-    destruct (is_some (find_arg m id)); [split; [reflexivity|reflexivity]|]. cbn [orb] in H. cbn [orb].
-    apply andb_true_iff in H. destruct H as [Hg Hgr]. split; [exact Hgr|].
-    intros Hglob. rewrite Hglob in Hg. discriminate.
+    specialize (H a Hf). rewrite forallb_forall in H. exact (H id Hid).
   - intros H a Ha. apply filter_In in Ha. destruct Ha as [Ha Hp]. apply Bool.negb_true_iff in Hp.
-    apply forallb_forall. intros id Hid. destruct (H a Ha Hp id Hid) as [H1 H2]. unfold entry_ok.
-    destruct (is_some (find_arg m id)); [reflexivity|]. cbn [orb] in *.
-    destruct (a_global a); [specialize (H2 eq_refl); discriminate|]. exact H1.
+    apply forallb_forall. intros id Hid. exact (H a Ha Hp id Hid).
 Qed.
